@@ -10,7 +10,7 @@ from typing import Any
 
 import z3
 
-from . import sym
+from . import sym, symstr
 from .core import NoFork as _NoFork
 from .core import PathEnd
 from .sym import SBool, SInt, SOpaque, Unsupported
@@ -627,6 +627,12 @@ class AstMixin:
                 if op is ast.LShift:
                     return a * p2
                 return sym.floordiv(a, p2) if False else sym.mk_int(sym.SHR(SInt.lift(a), SInt.lift(b)))
+            if op is ast.Mult and (isinstance(a, float) or isinstance(b, float)):
+                f, i = (a, b) if isinstance(a, float) else (b, a)
+                if f.is_integer() and abs(f) < 2**53 and isinstance(i, SInt):
+                    from .models import SymFloatInt
+
+                    return SymFloatInt(i * int(f))
             if isinstance(a, float) or isinstance(b, float):
                 raise Unsupported("float arithmetic with symbolic operand")
             if isinstance(a, SBool):
@@ -932,6 +938,22 @@ class AstMixin:
         return a is b
 
     def contains(self, cont: Any, x: Any) -> Any:
+        if self.alias and id(cont) in self.alias:
+            cont = self.alias[id(cont)]
+        if hasattr(cont, "pyvc_contains") and not isinstance(cont, symstr.SymStr):
+            return cont.pyvc_contains(self, x)
+        if isinstance(cont, symstr.SymStr):
+            return cont.pyvc_contains(self, x)
+        if isinstance(x, symstr.SymStr):
+            if isinstance(cont, str):
+                return symstr.SymStr(tuple(cont)).pyvc_contains(self, x) if cont else (len(x) == 0)
+            if isinstance(cont, SDict):
+                cont = list(cont.items.keys())
+            if isinstance(cont, SList):
+                cont = cont.items
+            if isinstance(cont, (list, tuple, set, frozenset, dict)):
+                return sym.Or(*[self.as_bool(self.compare(ast.Eq, x, y)) for y in cont]) if cont else False
+            raise Unsupported("membership of a symbolic string")
         if isinstance(cont, (SObj,)) or self.is_repo_object(cont):
             r = self.call_dunder(cont, "__contains__", [x], missing_ok=True)
             if r is NotImplemented:
@@ -1039,6 +1061,19 @@ class AstMixin:
                 parts.append(str(p.value))
             elif isinstance(p, ast.FormattedValue):
                 v = self.eval(p.value, env)
+                if getattr(self, "sym_strings", False) and isinstance(v, (SInt, symstr.SymStr)):
+                    spec = ""
+                    if p.format_spec is not None:
+                        spec = self.ex_JoinedStr(p.format_spec, env)  # type: ignore[arg-type]
+                        if not isinstance(spec, str):
+                            raise Unsupported("symbolic format spec")
+                    if isinstance(v, SInt):
+                        parts.append(symstr.format_int(self, v, spec))
+                    elif spec == "":
+                        parts.append(v)
+                    else:
+                        raise Unsupported("format spec on a symbolic string")
+                    continue
                 if not self.all_concrete(v):
                     # messages only: content is never inspected by the properties
                     self.note_opaque_string()
@@ -1056,6 +1091,11 @@ class AstMixin:
                     parts.append(format(v, spec))
                 except Exception as ex:  # noqa: BLE001
                     self.raise_(type(ex), str(ex))
+        if any(isinstance(x, symstr.SymStr) for x in parts):
+            out: tuple = ()
+            for x in parts:
+                out += symstr.chars_of(x)
+            return symstr.mk(out)
         return "".join(parts)
 
     def note_opaque_string(self) -> None:
@@ -1202,6 +1242,8 @@ class AstMixin:
             return any(self.isinstance_(v, c) for c in cls)
         if isinstance(v, SObj):
             return issubclass(v.cls, cls) if isinstance(cls, type) else False
+        if hasattr(type(v), "pyvc_pytype"):
+            return isinstance(cls, type) and issubclass(type(v).pyvc_pytype, cls)
         if isinstance(v, SBool):
             return cls in (bool, int, object)
         if isinstance(v, SInt):
